@@ -309,6 +309,10 @@ func (e *SEnv) tr(x *SX) *SVal {
 		if !ok || g.isOpaqueStruct(t) {
 			e.fail("composite literal of non-struct %s", x.Tok)
 		}
+		if len(x.Args) == 0 {
+			// T{}: the zero value
+			return &SVal{V: &Val{T: g.zero(t)}, T: t}
+		}
 		if len(x.Args) != st.NumFields() {
 			e.fail("composite literal %s needs %d positional fields", x.Tok, st.NumFields())
 		}
@@ -1608,6 +1612,7 @@ func (fr *Frame) checkEnsures(ret *ssa.Return, rs []*Val, h Heap) {
 		}
 		fr.oblig("ensures", "", label, f, en.Src, ret.Pos())
 	}
+	fr.checkFrame(ret, h)
 	_ = token.NoPos
 }
 
